@@ -154,6 +154,13 @@ def inputs_for(v, prop, tier, tag):
             items.append({"tag": t, "stream": B(s)})
         for k, c in ((129, True), (1000, True), (100000, True), (200000, False), (1000000, True)):
             items.append({"tag": f"nest-{k}", "nest": k, "complete": c})
+        # floods: one unit repeated up to 1 MiB (4 MiB in the thorough tier)
+        total = (1 << 20) if q else (1 << 22)
+        for name, unit in (("crlf", b"\r\n"), ("cr", b"\r"), ("lf", b"\n"), ("plus", b"+"), ("minus", b"-"), ("colon", b":"), ("dollar", b"$"),
+                           ("star", b"*"), ("zero", b"0"), ("nul", b"\x00"), ("ff", b"\xff"), ("space", b" "), ("int", b":1\r\n"),
+                           ("empty-bulk", b"$0\r\n\r\n"), ("empty-simple", b"+\r\n"), ("null", b"$-1\r\n"), ("empty-array", b"*0\r\n"),
+                           ("null-array", b"*-1\r\n"), ("wide-nest", b"*2\r\n"), ("ping", b"*1\r\n$4\r\nPING\r\n")):
+            items.append({"tag": "flood-" + name, "repeat": {"unit": B(unit), "count": total // len(unit)}})
         rnd.shuffle(items)
     elif prop == "C15":
         endings = ["close", "half-frame", "half-frame-open", "malformed", "garbage", "panic", "store-error", "rst-in-backlog"]
